@@ -85,6 +85,11 @@ Definition mon_used_bounds (s : State) : bool :=
   all_s (pledges s) (fun _ p => (0 <=? pl_used p) && (pl_used p <=? pl_total p)).
 Definition mon_shpledged_is_sum (s : State) : bool :=
   all_s (pledges s) (fun sp p => pl_shpledged p =? sumz (live_shards s sp) sh_pledge).
+(* C02: the collateral a release subtracts is covered by the coin it subtracts from (a violation is a state from which
+   the unattended release of the provider's shards at their expiry panics in EndBlock with a negative coin amount; the
+   used-capacity counter is a plain integer and may go negative without a panic, so it is not part of this clause) *)
+Definition mon_release_covered (s : State) : bool :=
+  all_s (pledges s) (fun sp p => sumz (live_shards s sp) sh_pledge <=? pl_shpledged p).
 Definition mon_worker_is_sum (s : State) : bool :=
   all_s (pledges s) (fun sp _ =>
     let ls := live_shards s sp in
@@ -216,6 +221,7 @@ Definition app_monitors (boundary : bool) (h : Z) (s : State) : list (string * b
     ("agg.used_bounds", mon_used_bounds s);
     ("agg.shpledged_is_sum", mon_shpledged_is_sum s);
     ("agg.worker_is_sum", mon_worker_is_sum s);
+    ("live.release_covered", mon_release_covered s);
     ("agg.pool_is_sum", mon_pool_is_sum s);
     ("solv.order", mon_order_solvent s);
     ("solv.node", mon_node_solvent s);
